@@ -260,7 +260,7 @@ def cases(tier: str, rng: random.Random):  # noqa: ANN201
                     if valid(case):
                         yield case
     for body in BODIES:
-        for disp in (["raise"], ["gate-raise"], ["gate"], ["raise", "gate-raise"], ["raise-base"]):
+        for disp in (["raise"], ["gate-raise"], ["gate"], ["raise", "gate-raise"], ["raise-base"], ["true"], ["ok", "true"]):
             for scripts in (("gate",), ("forever",), ("gate", "now"), ("spawn-gate",)):
                 case = {"tasks": [[s, "plain", False] for s in scripts], "body": body, "disp": disp}
                 if valid(case):
@@ -275,7 +275,7 @@ def cases(tier: str, rng: random.Random):  # noqa: ANN201
         n = rng.randint(2, 4)
         case = {"tasks": [[rng.choice(SCRIPTS), rng.choice(SITES), rng.random() < 0.35] for _ in range(n)], "body": rng.choice(BODIES), "inner_exit": rng.choice(["return", "return", "raise-exc", "cancel-self"]), "body_gate": rng.random() < 0.8}
         if rng.random() < 0.3:
-            case["disp"] = [rng.choice(["ok", "gate", "raise", "gate-raise"]) for _ in range(rng.randint(1, 2))]
+            case["disp"] = [rng.choice(["ok", "gate", "raise", "gate-raise", "true"]) for _ in range(rng.randint(1, 2))]
         if rng.random() < 0.15:
             case["pre"] = rng.choice(["raise", "raise-cancelled", "gate-raise-cancelled", "gate-raise"])
         if valid(case):
